@@ -120,6 +120,17 @@ def special_designs():
             py4hw.Reg(dut, 'r2', q, q2)
             return [d, r, e], [q, q2]
         add('Reg(reset_value=%d,w=%d)+chain' % (rv, w), f, True)
+    # inverting gates with a result wire wider / narrower than the operands
+    for gate in ('Xor2', 'Nand2', 'Nor2', 'Not'):
+        for w, rw in [(4, 6), (8, 9), (4, 2)]:
+            def f(hw, dut, gate=gate, w=w, rw=rw):
+                a = hw.wire('a', w); b = hw.wire('b', w); r = hw.wire('r', rw)
+                if gate == 'Not':
+                    py4hw.Not(dut, 'g', a, r)
+                    return [a], [r]
+                getattr(py4hw, gate)(dut, 'g', a, b, r)
+                return [a, b], [r]
+            add('%s(result %s w=%d,rw=%d)' % (gate, 'wider' if rw > w else 'narrower', w, rw), f)
     # shifts by constants at/over the width into different result widths
     for a, n, r in [(8, 8, 8), (8, 9, 16), (4, 0, 2), (8, 40, 8), (16, 3, 8)]:
         def f(hw, dut, a=a, n=n, r=r):
@@ -147,6 +158,10 @@ def special_class(label):
     head = label.split('(')[0]
     if '(wide ' in label:
         return head + '(wide ' + label.split('(wide ')[1].split(' ')[0] + ')'
+    if '(result wider' in label:
+        return head + '(result wider)'
+    if '(result narrower' in label:
+        return head + '(result narrower)'
     if 'out-of-range' in label:
         return head + '(out-of-range constant)'
     return head
